@@ -603,6 +603,10 @@ class Interp:
                 # a Terminator-driven (orderly) close: server resources must be released by now
                 if st.get(('e', 'srv_claimed')) == 'T':
                     self.add_viol("closed-with-claim-held", "nameplate")
+                elif st.get(('e', 'srv_alloc_claim')) == 'T':
+                    # the only claim left is the one the server made for us when it allocated the nameplate
+                    self.add_viol("closed-with-allocation-claim-held",
+                                  "allocated-reply-processed" if st.get(('e', 'alloc_answered')) == 'T' else "allocated-reply-never-processed")
                 if st.get(('e', 'srv_mb')) == 'T':
                     self.add_viol("closed-with-mailbox-open", "mailbox")
                 if st.get(('e', 'rc_dead')) != 'T':
@@ -663,6 +667,10 @@ class Interp:
                         st[('e', 'pend_' + t)] = 'T'
                     if t == "claim":
                         st[('e', 'srv_claimed')] = 'T'
+                    if t == "allocate":
+                        # docs/server-protocol.rst: "Allocating a nameplate automatically claims it" - for this side, when the server
+                        # processes the request, whether or not its `allocated` reply is ever read
+                        st[('e', 'srv_alloc_claim')] = 'T'
                     if t == "open":
                         st[('e', 'mb_open')] = 'T'
                         st[('e', 'srv_mb')] = 'T'
@@ -1616,8 +1624,11 @@ class Explorer:
         return 'T'
 
     def srvdone(self, s, h):
+        if h == "allocated":
+            s = self.mark(s, 'alloc_answered')
         if h == "released":
             s = self.unmark(s, 'srv_claimed')
+            s = self.unmark(s, 'srv_alloc_claim')      # the claim of (side, nameplate) is one claim, however it was made
         if h == "closed":
             s = self.unmark(s, 'srv_mb')
         return s
